@@ -76,6 +76,15 @@ def run(ctx):
         mon_fail[kind] = 1
         ctx.violation(what, dict(kind=kind, **replay), signature=signature)
 
+    # every configuration option a rights back-end reads must be a dimension of this harness
+    known_opts = {("auth", "type"), ("rights", "type"), ("rights", "file"), ("logging", "rights_rule_doesnt_match_on_debug")}
+    try:
+        opts = X.rights_config_options()
+    except Exception as e:
+        opts = {("?", repr(e))}
+    ctx.obligation("glue:config-options-covered", opts <= known_opts,
+                   "rights back-ends read configuration options the harness does not vary: %r" % sorted(opts - known_opts))
+
     # ------------------------------------------------------------------ (a) simple back-ends
     from radicale import pathutils, rights as rights_mod
     users = list(dict.fromkeys(list(small_strings(["a", "b", "/"] if ctx.quick else ALPHA, 3)) + [".", "..", "a.", ".a"] + SPECIAL_USERS))
@@ -148,6 +157,7 @@ def run(ctx):
             continue
         text = X.render_rules([{k: v for k, v in s.items() if not k.startswith("_")} for s in secs])
         ro = impl.load(text)
+        ro_dbg = impl.load(text, True)
         for u in users:
             # '.' excludes "\n"; the request handler refuses user names that are not a safe path component
             # (app/__init__.py: "Refused unsafe username") before any rights back-end is asked
@@ -155,11 +165,12 @@ def run(ctx):
                 continue
             for p in paths[:ctx.n(160, 4000)]:
                 n_ex += 1
-                a, _ = X.py_authorization(ro, u, p)
+                a, _ = X.py_authorization(ro_dbg if n_ex % 2 else ro, u, p)
                 b = backends[True][kind].authorization(u, p)
                 if a != b:
-                    violation("example-rules", "example rules for %s in /repo/rights give %r, the plugin gives %r (user %r, path %r)" % (kind, a, b, u, p),
-                              dict(backend=kind, rules=secs, user=u, path=p, from_file=a, plugin=b))
+                    violation("example-rules", "example rules for %s in /repo/rights give %r, the plugin gives %r (user %r, path %r, [logging] "
+                              "rights_rule_doesnt_match_on_debug = %r)" % (kind, a, b, u, p, bool(n_ex % 2)),
+                              dict(backend=kind, rules=secs, user=u, path=p, from_file=a, plugin=b, rule_debug=bool(n_ex % 2)))
     ctx.count("cases:example-rules", n_ex)
     ctx.log("example rules: %d" % n_ex)
     ctx.evaluations += n_ex
@@ -174,7 +185,7 @@ def run(ctx):
         ctx.case(("re", p, s), nontrivial=any(c in p for c in "()[]{}*+?|\\."))
         ctx.count("regex:" + ("error" if e == "ERR" else "nomatch" if e is None else "match%s" % ("+groups" if e else "")))
     codes = X.classify_cases(ctx, "c04_re", "(fun ps => fullmatch_py (fst ps) (snd ps))", "cls_fm", cases_b,
-                             lambda ps: "(%s, %s)" % (enc_str(ps[0]), enc_str(ps[1])), X.enc_fm, shard=ctx.n(420, 800))
+                             lambda ps: "(%s, %s)" % (enc_str(ps[0]), enc_str(ps[1])), X.enc_fm, shard=ctx.n(640, 800))
     record(ctx, "regex", cases_b, codes)
     ctx.samples.append(dict(kind="regex", pattern="(a*)*", subject="aa", python=repr(X.py_fullmatch("(a*)*", "aa"))))
 
@@ -202,7 +213,7 @@ def run(ctx):
     record(ctx, "format", cases_f, codes)
 
     # ------------------------------------------------------------------ (c) from_file
-    for tag, nfiles, optg in (("from_file", ctx.n(450, 6000), False), ("from_file_optgroup", ctx.n(60, 600), True)):
+    for tag, nfiles, optg in (("from_file", ctx.n(380, 6000), False), ("from_file_optgroup", ctx.n(60, 600), True)):
         cases_c, kinds = [], collections.Counter()
         oracle_n = 0
         for i in range(nfiles):
@@ -211,8 +222,9 @@ def run(ctx):
             if optg and not any(s.get("user") in ("(bob)|(alice)", "(a)?.*") for s in rules):
                 rules[ctx.rng.randrange(len(rules))]["user"] = ctx.rng.choice(["(bob)|(alice)", "(a)?.*"])
             text = X.render_rules(rules, ctx.rng)
+            rule_debug = i % 2 == 1        # [logging] rights_rule_doesnt_match_on_debug: must only change the log
             try:
-                ro = impl.load(text)
+                ro = impl.load(text, rule_debug)
             except Exception as e:
                 kinds["load:" + type(e).__name__] += 1
                 continue
@@ -223,18 +235,20 @@ def run(ctx):
                     # genuine defect (see notes/C04.md): modelled as fixed, reported with a concrete replay
                     violation("optgroup", "from_file: user %r, path %r: RuntimeError(TypeError) because a group of the user pattern "
                               "did not take part in the match (rules %r)" % (user, path, rules),
-                              dict(rules=rules, user=user, path=path), signature=SIG_OPTGROUP)
+                              dict(rules=rules, user=user, path=path, rule_debug=rule_debug), signature=SIG_OPTGROUP)
                     continue
                 cases_c.append(((rules, user, path), v))
                 reached = v not in ("",)
                 ctx.case((tag, text, user, path), nontrivial=reached or any(_user_matches(s, user) for s in rules))
                 ctx.count("from_file:" + ("error" if v == "ERR" else "deny" if v == "" else "grant"))
+                ctx.count("from_file:rule_debug=%s" % rule_debug)
                 o = X.oracle_authorization(rules, user, path)
                 if o is not None and v != "ERR":
                     oracle_n += 1
                     if o != v:
                         violation("from_file-oracle", "from_file returns %r for user %r path %r; first full match with literal substitution "
-                                  "gives %r (rules %r)" % (v, user, path, o, rules), dict(rules=rules, user=user, path=path, got=v, oracle=o))
+                                  "gives %r (rules %r, [logging] rights_rule_doesnt_match_on_debug = %r)" % (v, user, path, o, rules, rule_debug),
+                                  dict(rules=rules, user=user, path=path, got=v, oracle=o, rule_debug=rule_debug))
         ctx.log("%s: %d cases on the implementation" % (tag, len(cases_c)))
         for k, v in kinds.items():
             ctx.count("from_file:exc:" + k, v)
@@ -254,8 +268,13 @@ def auth_type_cases(ctx, users, paths, violation):
     (glue obligation + correspondence with the REGENERATED RightsVerifyGen.verify_user), and the documented
     behaviour must hold with each of them (a reduced user x path product; the full product runs for none/htpasswd)."""
     from radicale import auth as auth_mod
+    from radicale.auth import none as auth_none, denyall as auth_denyall
+
+    class EmbeddedAuth(auth_mod.BaseAuth):          # an auth plugin handed over as a class (embedding), [auth] type is str_or_callable
+        pass
     types = list(dict.fromkeys(list(auth_mod.INTERNAL_TYPES) + ["None", "NONE", "none ", " none", "nonee", "non", "n", "remote_user2",
                                                                 "radicale_custom.auth", "http_x_remote_user ", "denyall2"]))
+    types += [EmbeddedAuth, auth_none.Auth, auth_denyall.Auth, (lambda configuration: EmbeddedAuth(configuration))]
     us = [u for u in ["", "a", "b", "tmp", "Tmp", ".*", "user@domain.test"] if u in users or u == ""]
     ps = list(dict.fromkeys(paths[:ctx.n(30, 120)] + [p for p in paths if p in ("/", "/tmp", "/tmp/", "/tmp2/", "/tmp/cal/", "/tmp/cal/e.ics", "/Tmp/", "/a/", "/a/b", "/a/b/c")]))
     vcases = []
@@ -263,12 +282,14 @@ def auth_type_cases(ctx, users, paths, violation):
         try:
             bk = simple_backends(t)
         except Exception as e:
-            ctx.obligation("glue:_verify_user(auth %r)" % t, False, "cannot configure auth type %r: %r" % (t, e))
+            ctx.obligation("glue:_verify_user(auth %s)" % (t if isinstance(t, str) else getattr(t, "__qualname__", "callable")), False,
+                           "cannot configure auth type %r: %r" % (t, e))
             continue
         want_verify = t != "none"
+        tname = t if isinstance(t, str) else "<callable %s.%s>" % (getattr(t, "__module__", "?"), getattr(t, "__qualname__", type(t).__name__))
         got_verify = {k: bk[k]._verify_user for k in SIMPLE}
-        ctx.obligation("glue:_verify_user(auth %r)" % t, all(v is want_verify for v in got_verify.values()),
-                       "_verify_user must be %r for auth type %r, is %r" % (want_verify, t, got_verify))
+        ctx.obligation("glue:_verify_user(auth %s)" % (repr(t) if isinstance(t, str) else tname), all(v is want_verify for v in got_verify.values()),
+                       "_verify_user must be %r for auth type %s, is %r" % (want_verify, tname, got_verify))
         for k in SIMPLE:
             vcases.append(((k, t), bool(bk[k]._verify_user)))
         for kind in SIMPLE:
@@ -276,15 +297,16 @@ def auth_type_cases(ctx, users, paths, violation):
                 for p in ps:
                     got = bk[kind].authorization(u, p)
                     want = X.doc_simple(kind, want_verify, u, p)
-                    ctx.case(("simple-auth", t, kind, u, p), nontrivial=(p != "/"))
+                    ctx.case(("simple-auth", tname, kind, u, p), nontrivial=(p != "/"))
                     if got != want:
-                        violation("simple", "%s(auth type %r).authorization(%r, %r) = %r, documented: %r" % (kind, t, u, p, got, want),
-                                  dict(backend=kind, auth_type=t, verify=want_verify, user=u, path=p, got=got, documented=want))
+                        violation("simple", "%s(auth type %s).authorization(%r, %r) = %r, documented: %r" % (kind, tname, u, p, got, want),
+                                  dict(backend=kind, auth_type=tname, verify=want_verify, user=u, path=p, got=got, documented=want))
     ctx.count("cases:simple-auth-types", len(types) * len(SIMPLE) * len(us) * len(ps))
     ctx.count("auth-types", len(types))
     hdr = X.HEADER + "Require RV.Gen.RightsVerifyGen.\nDefinition cls_bool (exp got : bool) : N := if Bool.eqb exp got then 0 else 1.\n"
     codes = X.classify_cases(ctx, "c04_verify", "(fun kt => RightsVerifyGen.verify_user (snd kt))", "cls_bool", vcases,
-                             lambda kt: "(%d, %s)" % (SIMPLE.index(kt[0]), enc_str(kt[1])), enc_bool, shard=3000, header=hdr)
+                             lambda kt: "(%d, %s)" % (SIMPLE.index(kt[0]), "(Some %s)" % enc_str(kt[1]) if isinstance(kt[1], str) else "(@None pystr)"),
+                             enc_bool, shard=3000, header=hdr)
     record(ctx, "verify_user", vcases, codes)
 
 
@@ -397,14 +419,18 @@ def replay(ctx, path):
     print(json.dumps(data, indent=1, default=str)[:3000])
     kind = rp.get("kind", "")
     if kind.startswith("simple"):
-        bk = simple_backends(rp.get("auth_type") or ("htpasswd" if rp["verify"] else "none"))[rp["backend"]]
+        at = rp.get("auth_type") or ("htpasswd" if rp["verify"] else "none")
+        if at.startswith("<callable"):
+            from radicale.auth import none as auth_none
+            at = auth_none.Auth
+        bk = simple_backends(at)[rp["backend"]]
         got = bk.authorization(rp["user"], rp["path"])
         want = X.doc_simple(rp["backend"], rp["verify"], rp["user"], rp["path"])
         print("now: %r  documented: %r" % (got, want))
         return 0 if got == want else 1
     if kind in ("optgroup", "from_file-oracle"):
         impl = X.FromFileImpl(ctx.scratch())
-        ro = impl.load(X.render_rules(rp["rules"]))
+        ro = impl.load(X.render_rules(rp["rules"]), rp.get("rule_debug", False))
         v, k = X.py_authorization(ro, rp["user"], rp["path"])
         o = X.oracle_authorization(rp["rules"], rp["user"], rp["path"])
         print("now: %r (%s)  oracle: %r" % (v, k, o))
@@ -422,7 +448,7 @@ def replay(ctx, path):
         return 0 if got == seq else 1
     if kind == "example-rules":
         impl = X.FromFileImpl(ctx.scratch())
-        ro = impl.load(X.render_rules([{k: v for k, v in s.items() if not k.startswith("_")} for s in rp["rules"]]))
+        ro = impl.load(X.render_rules([{k: v for k, v in s.items() if not k.startswith("_")} for s in rp["rules"]]), rp.get("rule_debug", False))
         a, _ = X.py_authorization(ro, rp["user"], rp["path"])
         b = simple_backends("htpasswd")[rp["backend"]].authorization(rp["user"], rp["path"])
         print("now: example rules %r, plugin %r" % (a, b))
